@@ -493,9 +493,13 @@ func genUnitary[T num](tab []*kop[T]) func(g *vlib.G) {
 				continue
 			}
 			op := op
-			lens := vlib.Ints(0, 70)
+			lens := vlib.Ints(0, vlib.Pick(g, 70, 130))
 			nShort := len(lens)
-			lens = append(lens, longLens(g)...)
+			for _, n := range longLens(g) {
+				if n > lens[nShort-1] {
+					lens = append(lens, n)
+				}
+			}
 			for li, n := range lens {
 				pls := []int{0, 1, 2, 3, 4, 5, 6, 7, plEnd, plStart}
 				if li >= nShort {
@@ -505,7 +509,7 @@ func genUnitary[T num](tab []*kop[T]) func(g *vlib.G) {
 					n, pl := n, pl
 					g.Case(fmt.Sprintf("%s n=%d pl=%s", op.name, n, plName(pl)), func(t *vlib.T) {
 						steps := []int{3}
-						if g.Thorough() && pl < 8 && n <= 70 {
+						if g.Thorough() && pl < 8 && li < nShort {
 							steps = []int{0, 1, 2, 3, 4, 5, 6, 7}
 						}
 						evals := 0
@@ -513,7 +517,7 @@ func genUnitary[T num](tab []*kop[T]) func(g *vlib.G) {
 							for _, am := range aliasModes(op) {
 								for ai, alpha := range alphaCache[op.alpha] {
 									for seed := uint64(0); seed < 2; seed++ {
-										if n > 70 && (seed > 0 || ai > 1) {
+										if li >= nShort && (seed > 0 || ai > 1) {
 											continue
 										}
 										e := &evalSpec[T]{op: op, n: n, pl: pl, plStep: st, aliasTo: am, alpha: alpha, seed: seed*31 + uint64(n)}
@@ -552,7 +556,8 @@ func incSet(g *vlib.G, hasIx bool) []int {
 func genInc[T num](tab []*kop[T]) func(g *vlib.G) {
 	return func(g *vlib.G) {
 		ev := &evaluator[T]{ab: newAlphabet[T]()}
-		alphaCache := map[int][]T{0: {mk[T](1, 0)}, 1: exactAlphas[T](1)[:3], 2: exactAlphas[T](2)[:3]}
+		na := vlib.Pick(g, 3, 5)
+		alphaCache := map[int][]T{0: {mk[T](1, 0)}, 1: exactAlphas[T](1)[:na], 2: exactAlphas[T](2)[:na]}
 		for _, op := range tab {
 			if !op.isInc() {
 				continue
